@@ -24,6 +24,8 @@ var vC04Shapes = []vC04Shape{
 	{"int(value) + 0.5 + 1.5", "ff"}, {"int(value) * 0.5 * 2.0", "ff"}, {"int(value) + 1 + 0.5", "pf"}, {"int(value) * 2 * 0.5", "pf"},
 	{"1 + 2 + int(value)", "ii"}, {"2 * 3 * int(value)", "pp"}, {"int(value) + (1 + 2)", "ii"}, {"int(value) * (2 * 3)", "pp"},
 	{"'a' + 'b'", "ss"}, {"key + 'a' + 'b'", "ss"}, {"'a' + key", "s"}, {"'a' + 'b' + key", "ss"}, {"key + ('a' + 'b')", "ss"},
+	{"'a' + key + 'b'", "ss"}, {"'a' + value + 'b' + 'c'", "sss"}, {"'a' + upper(key) + 'b'", "ss"}, {"'a' + (key + 'b')", "ss"}, {"'a' + key + value + 'b'", "ss"},
+	{"2 * int(value) * 3", "pp"}, {"1 + int(value) + 2 + 3", "iii"}, {"2 * (int(value) * 3)", "pp"}, {"1 + strlen(key) + 2", "ii"}, {"0.5 + int(value) + 1.5", "ff"},
 	{"upper('ab')", "s"}, {"lower('AB')", "s"}, {"strlen('ab') + 1", "si"}, {"int('12') + 1", "ki"}, {"str(5)", "d"}, {"str(2 + 3)", "pp"},
 	{"is_int('12')", "s"}, {"join(',', 'a', 'b')", "sss"}, {"substr('abc', 0, 2)", "skk"}, {"upper('a' + 'b')", "ss"}, {"strlen(upper('ab'))", "s"},
 	{"1 = 2", "ii"}, {"1 != 2", "ii"}, {"1 < 2", "ii"}, {"1 >= 2", "ii"}, {"0.5 < 1.5", "ff"}, {"1 < 0.5", "pf"}, {"'a' = 'b'", "ss"}, {"'a' < 'b'", "ss"},
@@ -149,7 +151,7 @@ func VH_C04(si int) {
 	vOverwrite(lr, vals, sh.kinds)
 	eo := ExpressionOptimizer{Root: rew}
 	rew = eo.Optimize()
-	key := vNondetBytes("key", 0, 2, "")
+	key := vNondetBytes("key", 0, 2, vASCII)
 	vlen := 2
 	for j := range sh.kinds {
 		if sh.kinds[j] == 'f' {
